@@ -34,8 +34,8 @@ func TestVerif_C12(t *testing.T) {
 		for i := 0; i < 2+rng.Intn(4); i++ {
 			snaps = append(snaps, crypto.Blake3Hash([]byte(fmt.Sprint("snap", trial, i))))
 		}
-		boundTo := map[crypto.Key]crypto.Hash{}       // commitment -> the snapshot its handle was handed out for
-		handleOf := map[string]*crypto.CosiNonce{}    // snapshot|commitment -> handle returned first
+		boundTo := map[crypto.Key]crypto.Hash{}    // commitment -> the snapshot its handle was handed out for
+		handleOf := map[string]*crypto.CosiNonce{} // snapshot|commitment -> handle returned first
 		ops := 3 + rng.Intn(12)
 		for o := 0; o < ops; o++ {
 			s := snaps[rng.Intn(len(snaps))]
